@@ -58,7 +58,8 @@ void Log::useFile(bool on)
 
 void Log::setMaxLevel(int level)
 {
-	Log::instance()->_maxLevel = level;
+	// while logging is disabled (enable(false)) the level is kept in its negative form, so that it stays disabled
+	Log::instance()->_maxLevel = (Log::instance()->_maxLevel < 0 && level >= 0) ? -level - 1 : level;
 	Log::instance()->storeState();
 }
 
